@@ -6,6 +6,7 @@ require (
 	github.com/vkngwrapper/arsenal/memutils v1.1.3
 	github.com/vkngwrapper/arsenal/vam v0.0.0
 	github.com/vkngwrapper/core/v3 v3.0.2
+	github.com/vkngwrapper/extensions/v3 v3.0.4
 )
 
 require (
@@ -15,7 +16,6 @@ require (
 	github.com/google/uuid v1.6.0 // indirect
 	github.com/launchdarkly/go-jsonstream/v3 v3.1.0 // indirect
 	github.com/pkg/errors v0.9.1 // indirect
-	github.com/vkngwrapper/extensions/v3 v3.0.4 // indirect
 )
 
 replace github.com/vkngwrapper/arsenal/vam => /repo/vam
